@@ -82,7 +82,7 @@ func splitDays(out string) [][]string {
 func checkC15(w *Worker) {
 	w.appInit()
 	bookText := renderBook(c15Book)
-	refCache := map[string][]rDay{}
+	refRunCache := map[string]AppRun{}
 	colours := [][2][]string{{nil, nil}, {{"--no-color"}, nil}, {nil, {"--no-color"}}} // [global flags, sub-command flags]
 	templates := []struct {
 		Name   string
@@ -111,15 +111,18 @@ func checkC15(w *Worker) {
 		}
 		logText := renderLog(lg)
 		files := map[string]string{"food.yaml": bookText, "log.yaml": logText}
-		ref, ok := refCache[logText]
+		refCase := appCase{Args: []string{"--no-color", "reg"}, Files: files}
+		refRun, ok := refRunCache[logText]
 		if !ok {
-			r := runApp(appCase{Args: []string{"--no-color", "reg"}, Files: files})
-			var err error
-			ref, err = parseRegister(r.Stdout, "default")
-			if err != nil || r.Failed {
-				hfail("reference configuration failed: %v %s", err, r.String())
-			}
-			refCache[logText] = ref
+			refRun = runApp(refCase)
+			refRunCache[logText] = refRun
+		} else {
+			logRun(refCase, refRun)
+		}
+		ref, err := parseRegister(refRun.Stdout, "default")
+		if err != nil || refRun.Failed {
+			x.Violate("C15|plain-register-failed", fmt.Sprintf("`%s`: %v %s", refCase.shell(), err, refRun.String()), nil)
+			return
 		}
 		tpl := templates[ti]
 		cfgName := fmt.Sprintf("colour=%d,template=%s,shorten=%d", ci, tpl.Name, sh)
